@@ -18,8 +18,8 @@ def cases(ctx):
         "labels, 0x00 runs, \\000 label below, maximal name} (oracle on all; model comparison on all in the thorough "
         "tier, on a fixed subset in the quick tier)"
     )
-    n = ctx.n(700, 60000)
-    n_model = ctx.n(700, 9000)  # random triples beyond this many are oracle-only (kind suffix -o)
+    n = ctx.n(700, 40000)
+    n_model = ctx.n(700, 4000)  # random triples beyond this many are oracle-only (kind suffix -o)
     for it in range(n):
         a = nl.gen_labels(rng)
         b = nl.related(rng, a) if rng.random() < 0.8 else nl.gen_labels(rng)
@@ -33,7 +33,7 @@ def cases(ctx):
         yield "triple", [20, a, b, c]
         yield "hash" + sfx, [3, a]
         yield "hash" + sfx, [3, nl.case_variant(rng, a)]
-    for _ in range(ctx.n(400, 5000)):
+    for _ in range(ctx.n(400, 2500)):
         a = nl.gen_labels(rng)
         ro = rng.random()
         if ro < 0.75:
@@ -73,7 +73,7 @@ def cases(ctx):
         if nl.fits(q):
             yield "namedict", [22, keys, q]
     # successor / predecessor: last octet sweeps, boundary lengths
-    for _ in range(ctx.n(300, 2500)):
+    for _ in range(ctx.n(300, 1500)):
         o = nl.gen_labels(rng, absolute=True, budget=rng.choice([5, 12, 60]))
         shape = rng.choice(["short", "l63", "max", "rand", "rel"])
         yield from succ_cases(rng, o, shape, rng.choice(nl.INTERESTING + [rng.randrange(256)]))
@@ -360,3 +360,61 @@ def oracle(ctx, kind, case, out):
             if canon_cmp(nabs, o) != 0 and canon_cmp(rabs, nabs) >= 0:
                 fail("predecessor does not sort strictly before the name", sig="pred-order")
     return F
+
+
+def widen(ctx, disagreements):
+    """Model and implementation differ (or a proof broke) and the oracle found nothing among the
+    cases of this run: look harder for a concrete violation of the property text -
+    (1) the neighbourhood of every disagreeing case (every value of every octet of the first label,
+    both prefix_ok values, successor and predecessor; for comparisons: case variants and swaps),
+    (2) a thorough-size oracle-only pass with a different seed."""
+    import lib
+
+    found = []
+
+    def run(kind, case):
+        case = lib.normalize(case)
+        out = lib.normalize(lib.safe_impl(__import__("pC06"), case))
+        for f in oracle(ctx, kind, case, out) or []:
+            f.setdefault("case_kind", kind)
+            f.setdefault("case", case)
+            found.append(f)
+        return len(found) >= 5
+
+    for d in disagreements[:40]:
+        case = d.get("case")
+        if not isinstance(case, list) or not case:
+            continue
+        op = case[0]
+        if op in (14, 15) and case[1] and case[1][0]:
+            n, o = [bytes(x) for x in case[1]], [bytes(x) for x in case[2]]
+            first = n[0]
+            for pos in sorted({0, len(first) // 2, len(first) - 1, max(0, len(first) - 2)}):
+                for v in range(256):
+                    lab = first[:pos] + bytes([v]) + first[pos + 1:]
+                    for p in (0, 1):
+                        for opx in (14, 15):
+                            if run("succ" if opx == 14 else "pred", [opx, [lab] + n[1:], o, p]):
+                                return found
+        elif op == 2:
+            a, b = [bytes(x) for x in case[1]], [bytes(x) for x in case[2]]
+            for _ in range(20):
+                x, y = nl.case_variant(ctx.rng, a), nl.case_variant(ctx.rng, b)
+                if run("cmp", [2, x, y]) or run("cmp", [2, y, x]) or run("triple", [20, x, y, a]):
+                    return found
+        elif op in (10, 11, 12, 13, 16, 3):
+            if run("widen", case):
+                return found
+    # (2) thorough-size pass, oracle only
+    wctx = lib.Ctx(ID, "thorough", ctx.seed + 1000)
+    try:
+        k = 0
+        for kind, case in cases(wctx):
+            k += 1
+            if k > 400000:
+                break
+            if run(kind, case):
+                break
+    finally:
+        wctx.cleanup()
+    return found
